@@ -127,6 +127,11 @@ func (p *c3Toks) attempt() c3Attempt {
 	}
 	p.expect("validate")
 	a.validate = p.nat() != 0
+	p.expect("rereg")
+	if p.nat() != 0 {
+		m := p.manifest()
+		a.reg = &m
+	}
 	return a
 }
 
@@ -342,7 +347,7 @@ func c3TwoCases(r *zzverif.Rng, extra int, emit func(*c3Two)) {
 		X := rr.Bytes(rr.Range(8, 40))
 		dX := c.addLayer(X, false)
 		w := &c3Two{mode: mode, base: c, nameB: 1, x: dX}
-		w.regB = c3Manifest{layers: []c3Layer{{dX, int64(len(X))}}, config: c3Layer{"e", 0}}
+		w.regB = c3Manifest{layers: []c3Layer{{dX, int64(len(X)), 0}}, config: c3Layer{"e", 0, 0}}
 		var aLs, bLs []c3LScript
 		want := len(X)
 		if rr.Chance(1, 3) { // x has resume state (single part)
@@ -364,7 +369,7 @@ func c3TwoCases(r *zzverif.Rng, extra int, emit func(*c3Two)) {
 			case 1:
 				*scripts = append(*scripts, c3LScript{dig: d, head: []c3Reply{c3K("notfound")}})
 			}
-			return c3Layer{d, int64(len(b))}
+			return c3Layer{d, int64(len(b)), 0}
 		}
 		if rr.Bool() {
 			c.reg.layers = append(c.reg.layers, own(&aLs))
